@@ -1,6 +1,7 @@
 import CatiiProofs.IIndexEq
 import CatiiProofs.IIndexShift
 import CatiiProofs.IIndexWf
+import CatiiProofs.Counting
 /-!
 # C15 — library-chosen common value; equality is canonical
 
@@ -10,11 +11,13 @@ and dense content coincide; `!=` is defined as its negation (after the repair of
 so it never raises; comparison is reflexive, symmetric and transitive.
 
 *Common value.* `chooseCommon` is the value `shift_common()` picks (also at the end of `append`,
-`filtered`, `collapsed`).  `chosen_is_argmax_of_counter`: it maximises the counter the code
-builds — listed cells per value, and `size − listed` for the current common.  That this counter
-is the true cell count of each value follows from well-formedness (each listed cell is listed
-once); that counting step is checked by the oracle on the real code after every such operation
-(`count(common) == max count`) and is not yet a theorem, hence `…_partial` below.
+`filtered`, `collapsed`).  It maximises the counter the code builds — listed rows per value, and
+`size − listed` for the current common (`chosen_is_argmax_of_counter_partial`) — and that counter is exact:
+every key carries the number of cells of the dense array holding it (`Counting.counter_exact`, from
+well-formedness: each listed cell is listed once).  Hence `chosen_is_most_frequent`: the chosen value occurs in
+the dense array at least as often as every other value, and after `shift_common()` the stored common value is
+such a value (`normalised_common_is_most_frequent`).  The common value `from_array` picks from the (mapped)
+value counts is tied to the model by the correspondence and checked by the oracle on the real code.
 -/
 namespace Catii.C15
 open Catii.IIdx
@@ -111,6 +114,40 @@ theorem chosen_is_argmax_of_counter_partial (i : IIndex) (v : Int) (h : chooseCo
     let cs := cset cs0 i.common ((i.size : Int) - (cs0.map (·.2)).foldl (· + ·) 0)
     ∃ n, (v, n) ∈ cs ∧ ∀ x ∈ cs, x.2 ≤ n :=
   argmax_is_max _ v h
+
+/-- **the library-chosen value is a most frequent one**: it occurs in the dense array at least as often as
+every other value -/
+theorem chosen_is_most_frequent (i : IIndex) (h : WF i) (v : Int) (hc : chooseCommon i = some v) (u : Int) :
+    (denseArr i).data.count u ≤ (denseArr i).data.count v := by
+  rw [← countCells_eq_count, ← countCells_eq_count]
+  obtain ⟨hex, hall⟩ := counter_exact i h
+  obtain ⟨n, hmem, hmax⟩ := argmax_is_max _ v hc
+  have hn := hex _ hmem
+  simp only at hn
+  rcases hall u with ⟨x, hx, hxu⟩ | h0
+  · have h1 := hex x hx
+    have h2 := hmax x hx
+    rw [hxu] at h1
+    omega
+  · omega
+
+/-- after `shift_common()` the stored common value is a most frequent value of the (unchanged) dense array -/
+theorem normalised_common_is_most_frequent (i : IIndex) (h : WF i) (hnd : i.ndim ≤ 2) (r : IIndex)
+    (hr : shiftCommon i none = .ok r) (u : Int) :
+    (denseArr r).data.count u ≤ (denseArr r).data.count r.common := by
+  obtain ⟨v, hv, hs⟩ := shiftCommon_none i r hr
+  obtain ⟨_, hshape, hd⟩ := shiftCommon_refines i h hnd (some v) r hs
+  have hcommon : r.common = v := by
+    rw [shiftCommon_some i h hnd v] at hs
+    by_cases hvc : v = i.common
+    · simp only [hvc, if_true] at hs; cases hs; exact hvc.symm
+    · simp only [hvc, if_false] at hs; cases hs; rfl
+  have hcong : ∀ x, countCells r x = countCells i x := fun x =>
+    countCells_congr r i hshape (fun row hrow hi hhi => by
+      have h1 : row < i.nrows := by unfold IIndex.nrows at *; rw [← hshape]; exact hrow
+      exact hd row h1 hi (by rw [← hshape]; exact hhi)) x
+  rw [← countCells_eq_count, ← countCells_eq_count, hcong, hcong, hcommon, countCells_eq_count, countCells_eq_count]
+  exact chosen_is_most_frequent i h v hv u
 
 /-- re-normalising never changes content or well-formedness, whatever value is picked -/
 theorem normalisation_is_invisible (i : IIndex) (h : WF i) (hnd : i.ndim ≤ 2) (r : IIndex)
